@@ -4,6 +4,6 @@ CONSTANTS
   Pinned = FALSE
   DupShares = TRUE
   MaxOps = 6
-  MaxCells = 9
+  MaxCells = 12
 INVARIANTS NoCycle Unshared
 CHECK_DEADLOCK FALSE
